@@ -46,13 +46,13 @@ def WellFormed (v : Val) : Prop := Typing.checkVal false v (typeOf v) = true ∧
 body (its MAP bodies keep the element type) -/
 def StrictWF (v : Val) : Prop := Typing.checkVal true v (typeOf v) = true ∧ Typing.litOk v = true
 
-/-- **shape digests**: for each of the 86 instruction forms, the helpers (`execute_dip`, `execute_shift`, `dispatch_types`
+/-- **shape digests**: for each of the 91 instruction forms, the helpers (`execute_dip`, `execute_shift`, `dispatch_types`
 …) and the `MichelsonStack` / `PairType` / `from_value` methods they call, the normalised statement list in the source
 is the one the mirror `Impl` was written from (translator/c01.py, `SHAPES`) -/
 theorem source_bodies_recognised : Generated.C01.bodyRecognised.all (·.2) = true := by decide
 
-/-- the digest list covers all 86 instruction forms -/
-theorem source_bodies_cover_all_forms : Generated.C01.modelledForms = 86 ∧ 86 ≤ Generated.C01.bodyRecognised.length := by
+/-- the digest list covers all 91 instruction forms -/
+theorem source_bodies_cover_all_forms : Generated.C01.modelledForms = 91 ∧ 91 ≤ Generated.C01.bodyRecognised.length := by
   decide
 
 /-- the `dispatch_types` tables read from arithmetic.py are the reference tables -/
@@ -223,7 +223,7 @@ end
 the PUSHed lambda literals, in LAMBDA bodies — leaves an element of the type it was given.  For such programs, run on
 strictly well-typed values (`StrictWF`: the lambdas on the input stack have strictly typed bodies too), the guard of
 `welltyped_run_eq_reference` never fires, so C01's statement holds with static hypotheses only.  The invariant "every
-lambda on the stack has a strictly typed body" is carried through all 86 instruction forms by the same preservation /
+lambda on the stack has a strictly typed body" is carried through all 91 instruction forms by the same preservation /
 progress development as the non-strict one, instantiated at the mode `Mode.strictGuarded`. -/
 
 /-- strict typing refines typing: same result -/
@@ -380,6 +380,32 @@ example (h : Hashes) (b : List Nat) :
   run_ok _ 20 _ [] _ (by simp [Spec.eval, Spec.evalSeq, Spec.step, Spec.stepMore, Res.bind])
 example : Spec.eval true { env0 with totalVotingPower := 7, minBlockTime := 15 } 20
     (.seq [.TOTAL_VOTING_POWER, .CAST .nat, .RENAME, .MIN_BLOCK_TIME]) [] = .ok [.num .nat 15, .num .nat 7] := by rfl
+
+-- extension 2, phase A.  BYTES gives the shortest big-endian / two's complement encoding (0 ↦ empty, a sign byte only where
+-- needed), NAT / INT read it back (leading zero bytes allowed, the empty string is 0)
+example : Spec.eval true env0 20 (.seq [.PUSH .int (.num .int (-129)), .BYTES]) [] = .ok [.bytes [255, 127]] := by rfl
+example : Spec.eval true env0 20 (.seq [.PUSH .int (.num .int 128), .BYTES, .PUSH .int (.num .int (-128)), .BYTES]) []
+    = .ok [.bytes [128], .bytes [0, 128]] := by rfl
+example : Spec.eval true env0 20 (.seq [.PUSH .int (.num .int 0), .BYTES, .PUSH .nat (.num .nat 0), .BYTES, .PUSH .nat (.num .nat 256), .BYTES]) []
+    = .ok [.bytes [1, 0], .bytes [], .bytes []] := by rfl
+example : Spec.eval true env0 20 (.seq [.PUSH .bytes (.bytes [255]), .INT, .PUSH .bytes (.bytes [0, 255]), .INT, .PUSH .bytes (.bytes []), .INT,
+      .PUSH .bytes (.bytes [0, 1, 0]), .NAT]) []
+    = .ok [.num .nat 256, .num .int 0, .num .int 255, .num .int (-1)] := by rfl
+example : Impl.run env0 20 (.seq [.PUSH .int (.num .int (-32769)), .BYTES, .DUP, .INT]) []
+    = .ok [.num .int (-32769), .bytes [255, 127, 255]] :=
+  run_ok env0 20 _ [] _ (by rfl)
+-- NEVER closes a branch that cannot be taken: the program is well-typed (the branch has every type) and runs
+example : Typing.typeInstr false (.seq [.PUSH (.or .never .int) (.right .never (.num .int 5)), .IF_LEFT .NEVER (.seq [])]) []
+    = some (.ok [.int]) := by rfl
+example : Impl.run env0 20 (.seq [.PUSH (.or .never .int) (.right .never (.num .int 5)), .IF_LEFT .NEVER (.seq [])]) []
+    = .ok [.num .int 5] :=
+  run_ok env0 20 _ [] _ (by rfl)
+-- VOTING_POWER / HASH_KEY: for EVERY voting-power table and key-hashing function of the environment
+example (vp : List Nat → Int) (h : Hashes) (k : List Nat) (hv : 0 ≤ vp (h.hashKey k)) :
+    Impl.run { env0 with votingPower := vp, hashes := h } 20 (.seq [.PUSH .key (.atom .key k), .HASH_KEY, .DUP, .VOTING_POWER]) []
+      = .ok [.num .nat (vp (h.hashKey k)), .atom .keyHash (h.hashKey k)] :=
+  run_ok _ 20 _ [] _ (by simp [Spec.eval, Spec.evalSeq, Spec.step, Spec.stepMore, Spec.stepExt, Spec.unV, Spec.hashKeyV,
+    Spec.votingPowerV, Spec.numOk, Res.bind, hv])
 
 -- non-vacuity of `welltyped_run_eq_reference` / `progress`: a well-typed program with a loop, a lambda call and a sorted
 -- set literal, run on a well-typed input stack; the hypotheses hold and the run is inside the guard
